@@ -160,26 +160,8 @@ func (st *c14State) inspect(tag string, db util.NodeDB, dir string, fail func(st
 	return "ok " + rootStr(root) + " " + fmtEntries(all, keys)
 }
 
-// runC14 runs the case scribbling over every buffer handed to or received from the trie. If it fails, it is run again
-// without scribbling over the PATH buffers handed to Insert / Delete: a case that then passes fails only because the trie
-// keeps the caller's path buffer (open known finding C14-path-aliasing); anything else is reported unlisted.
-func runC14(ops []string) CaseResult {
-	res := runC14x(ops, true)
-	if len(res.Fails) > 0 {
-		for _, m := range res.Fails {
-			if strings.HasPrefix(m, "harness") {
-				return res
-			}
-		}
-		if again := runC14x(ops, false); len(again.Fails) == 0 {
-			// report the finding, but hand the outputs of the clean run to the correspondence: the byte-exact tie with
-			// the model stays in force for this case
-			again.Fails, again.Finding = res.Fails, "C14-path-aliasing"
-			return again
-		}
-	}
-	return res
-}
+// runC14 runs the case scribbling over every buffer handed to or received from the trie (paths, values, read results).
+func runC14(ops []string) CaseResult { return runC14x(ops, true) }
 
 func runC14x(ops []string, scribblePaths bool) CaseResult {
 	var st *c14State
